@@ -299,9 +299,16 @@ def eval_case_inner(ctx, exe, case, status_of, deep=True):
             res["notes"].append(f"follow-up {name} fails on the original state (not judged)")
             continue
         tab = {t: T[(name, t)] for t in ("B", "B17", "D", "E", "M") if (name, t) in T}
+        d_fails = "D" in tab and tab["D"][0][0] != 0
         for t, (rt, _) in tab.items():
             res["followups"] += 1
-            if rt[0] != 0:
+            if rt[0] != 0 and d_fails:
+                # the calculation converges from the original engine's warm state but not in a fresh engine holding exact copies of
+                # every entity: the same link (D vs A) as a numerical difference; the other fresh instances fail as D does
+                if t == "D":
+                    res["sig"].append(("original-engine-warm-start", f"follow-up {name} runs on the original but not on an exact object "
+                                       f"copy in a fresh engine: {' '.join(rt[1].split())[:160]}"))
+            elif rt[0] != 0:
                 res["problems"].append(({"B": "followup", "B17": "followup", "D": "bincopy", "E": "sercopy", "M": "modify"}[t],
                                         f"follow-up {name} runs on the original state but fails on {t}: {rt[1][:300]}"))
         okay = {t: v[1] for t, v in tab.items() if v[0][0] == 0}
